@@ -36,6 +36,11 @@ CLAIMS = {
    note="Trusted: as C04 and C05. Partial: only the response/status leg is composed; the request legs (path, query, header, body extract∘render) are not modelled in this round and there is no loopback run.",
    technique="Coq proof (composition of the C04 precedence theorem with the C05 status sweep) with CLI/syn correspondence of both generated sides",
    design="§4 C06", engine="coq+translate+cli"),
+ "C01": dict(
+   text="PARTIAL. rustc is the oracle for acceptance and is not modelled. Proved in Coq (closed under the global context): the serde-bound clause (rustc E0277) — the worklist propagation of request/response usage flags over the type-dependency graph ends, for every finite graph, within |worklist|+2|types|+1 steps (C01_worklist_terminates) and its result is closed downward along dependencies (C01_serde_usage_closed), so a type deriving Serialize/Deserialize only mentions types that implement it. Every other clause of well-formedness is sampled: feature-grammar specs x random points of the 1152-point flag lattice are emitted by the real CLI and type-checked by `cargo check` in an arena crate that depends only on the documented runtime crates and /repo's support crate (40 modules quick, 300 thorough); each rustc rejection is either a listed known finding (narrow pattern) or a VIOLATION with the spec as replay.",
+   note="Trusted: rustc/cargo, the arena crate's dependency set (tools/arena/Cargo.toml), Coq kernel, hand model of serde_usage.rs (tied to the code only by the closure oracle on emitted derives and by rustc). `client` single-file mode is excluded (not self-contained by design: README generates types and client individually); ill-formed combinations: --only with --exclude and --all-schemas (clap group).",
+   technique="Coq proof (worklist invariant + termination measure) for the serde-bound clause; arena `cargo check` of emitted modules as search/oracle for the rest",
+   design="§4 C01", engine="coq+arena"),
 }
 
 checks = []
